@@ -547,6 +547,7 @@ pub fn run(args: &[String]) {
     // table <name> <dir> <tier | rows:FILE> <seed> <rows per chunk>
     crate::alloc::silence_panics();
     let name = args[0].as_str();
+    crate::chunks::set_table(name);
     let dir = &args[1];
     let tier = args[2].as_str();
     let seed: u64 = args[3].parse().unwrap();
